@@ -26,6 +26,10 @@ Proof. intros q T; dty q; dty T; reflexivity. Qed.
 Lemma forward_agrees : forall T e, forward_m T e = forward_spec T e.
 Proof. intros T e; dty T; dty e; reflexivity. Qed.
 
+(* the rule [forward_e] used inside every other model function is what the two overloads of forward.hpp compute *)
+Lemma forward_overloads_eq : forall T e, is_cat e -> forward_m T e = forward_e T e.
+Proof. intros T e H; dty e; try discriminate H; dty T; reflexivity. Qed.
+
 Lemma forward_like_agrees : forall T U, forward_like_m T U = forward_like_spec T U.
 Proof. intros T U; dty T; dty U; reflexivity. Qed.
 
@@ -129,138 +133,6 @@ Proof.
   intros dk sk sc [H1 H1'] [H2 H2'] H3; dty dk; try discriminate H1; try (exfalso; apply H1'; reflexivity);
     dty sk; try discriminate H2; try (exfalso; apply H2'; reflexivity); dty sc; try discriminate H3; reflexivity.
 Qed.
-
-(** tuple_cat with element types: any number of operands, any arities, any element kinds *)
-Lemma get_ref_passes_rvalue_tuple : forall g, is_cat g -> get_spec RV g = Some g.
-Proof. intros g H; dty g; try discriminate H; reflexivity. Qed.
-
-Definition refs_spec (o : toperand) : option (list telem) :=
-  map_opt (fun e : telem => do g <- get_spec (fst o) (fst e); Some (g, snd e)) (snd o).
-
-Lemma refs_of_eq : forall o, is_cat (fst o) -> refs_of o = refs_spec o.
-Proof.
-  intros [c l] H. unfold refs_of, refs_spec. cbn [fst snd] in *. rewrite (perfect_fwd_id c H). cbn [obind].
-  apply map_opt_ext. intros e. rewrite tuple_get_agrees. reflexivity.
-Qed.
-
-Lemma refs_spec_total : forall c l, is_cat c -> exists r, refs_spec (c, l) = Some r /\ Forall (fun e => is_cat (fst e)) r
-  /\ map snd r = map snd l
-  /\ map (fun e : telem => Some (snd e, moved_from (fst e))) r
-     = map (fun e : telem => do g <- get_spec c (fst e); Some (snd e, moved_from g)) l.
-Proof.
-  intros c l Hc. unfold refs_spec. cbn [fst snd]. induction l as [|e r IH].
-  - exists []. cbn. repeat split; constructor.
-  - destruct IH as [r' [Hr [Hf [Hv Hm]]]]. destruct (get_spec_total c (fst e) Hc) as [g Hg].
-    exists ((g, snd e) :: r'). cbn [map_opt]. rewrite Hg. cbn [obind]. rewrite Hr. cbn [obind].
-    repeat split.
-    + constructor; [exact (get_spec_is_cat _ _ _ Hg)|exact Hf].
-    + cbn [map fst snd]. rewrite Hv. reflexivity.
-    + cbn [map fst snd]. rewrite Hg. cbn [obind]. rewrite Hm. reflexivity.
-Qed.
-
-(* re-reading a tuple of references through an rvalue tuple returns the same references *)
-Lemma refs_spec_of_refs : forall r, Forall (fun e : telem => is_cat (fst e)) r -> refs_spec (RV, r) = Some r.
-Proof.
-  unfold refs_spec. cbn [fst snd]. induction r as [|[g v] r IH]; intros H; [reflexivity|].
-  inversion H as [|? ? Hg Hr]; subst. cbn [map_opt fst snd]. cbn [fst] in Hg.
-  rewrite (get_ref_passes_rvalue_tuple g Hg). cbn [obind]. rewrite (IH Hr). reflexivity.
-Qed.
-
-Definition final_of (r : list telem) : list (Z * bool) :=
-  map (fun e : telem => (snd e, negb (is_lref (fst e)) && negb (cst (fst e)))) r.
-
-Lemma moved_from_eq : forall g, is_cat g -> negb (is_lref g) && negb (cst g) = moved_from g.
-Proof. intros g H; dty g; try discriminate H; reflexivity. Qed.
-
-Lemma map_opt_some : forall {A} (l : list A), map_opt (fun x => x) (map Some l) = Some l.
-Proof. induction l as [|a r IH]; cbn; [reflexivity|]. rewrite IH. reflexivity. Qed.
-
-Lemma map_opt_map_some : forall {A B} (f : A -> B) (l : list A),
-  map_opt (fun x => x) (map (fun e => Some (f e)) l) = Some (map f l).
-Proof. induction l as [|a r IH]; cbn; [reflexivity|]. rewrite IH. reflexivity. Qed.
-
-Lemma map_opt_app : forall {A} (l1 l2 : list (option A)) r1 r2,
-  map_opt (fun x => x) l1 = Some r1 -> map_opt (fun x => x) l2 = Some r2 ->
-  map_opt (fun x => x) (l1 ++ l2) = Some (r1 ++ r2).
-Proof.
-  induction l1 as [|a l1 IH]; intros l2 r1 r2 H1 H2; cbn [map_opt app] in *.
-  - inversion H1. exact H2.
-  - destruct a as [a|]; [|discriminate H1]. cbn [obind] in *.
-    destruct (map_opt (fun x => x) l1) as [r|] eqn:Hr; [|discriminate H1]. cbn [obind] in H1. inversion H1; subst.
-    rewrite (IH l2 r r2 eq_refl H2). reflexivity.
-Qed.
-
-Definition spec_part (o : toperand) : list (option (Z * bool)) :=
-  map (fun e : telem => do g <- get_spec (fst o) (fst e); Some (snd e, moved_from g)) (snd o).
-
-(* generalised: the accumulated result is a tuple of references whose final reading equals what the standard
-   prescribes for the operands consumed so far *)
-Lemma tuple_cat_go_t_spec : forall tail r acc,
-  Forall (fun o : toperand => is_cat (fst o)) tail ->
-  Forall (fun e : telem => is_cat (fst e)) r ->
-  map_opt (fun x => x) (map (fun e : telem => Some (snd e, moved_from (fst e))) r) = Some acc ->
-  exists rest, map_opt (fun x => x) (concat (map spec_part tail)) = Some rest
-            /\ tuple_cat_go_t (RV, r) tail = Some (acc ++ rest).
-Proof.
-  induction tail as [|h tl IH]; intros r acc Ht Hr Hacc.
-  - exists []. split; [reflexivity|]. cbn [tuple_cat_go_t].
-    rewrite (refs_of_eq (RV, r) eq_refl), (refs_spec_of_refs r Hr). cbn [obind]. rewrite app_nil_r.
-    rewrite map_opt_map_some in Hacc. inversion Hacc; subst. unfold final_of. f_equal. apply map_ext_in. intros e He.
-    rewrite Forall_forall in Hr. rewrite (moved_from_eq _ (Hr e He)). reflexivity.
-  - inversion Ht as [|? ? Hh Htl]; subst. destruct h as [c l]. cbn [fst] in Hh.
-    destruct (refs_spec_total c l Hh) as [rh [Hrh [Hfh [_ Hmh]]]].
-    cbn [tuple_cat_go_t]. unfold concat2_t.
-    rewrite (refs_of_eq (RV, r) eq_refl), (refs_spec_of_refs r Hr). cbn [obind].
-    rewrite (refs_of_eq (c, l) Hh), Hrh. cbn [obind].
-    assert (Hr' : Forall (fun e : telem => is_cat (fst e)) (r ++ rh)) by (apply Forall_app; split; assumption).
-    assert (Hacc' : map_opt (fun x => x) (map (fun e : telem => Some (snd e, moved_from (fst e))) (r ++ rh))
-                    = Some (acc ++ map (fun e : telem => (snd e, moved_from (fst e))) rh)).
-    { rewrite map_app. apply map_opt_app; [exact Hacc|]. apply map_opt_map_some. }
-    destruct (IH (r ++ rh) _ Htl Hr' Hacc') as [rest [Hrest Hgo]].
-    exists (map (fun e : telem => (snd e, moved_from (fst e))) rh ++ rest). split.
-    + cbn [map concat]. apply map_opt_app; [|exact Hrest].
-      unfold spec_part. cbn [fst snd]. rewrite <- Hmh. apply map_opt_map_some.
-    + rewrite Hgo. rewrite app_assoc. reflexivity.
-Qed.
-
-Lemma tuple_cat_t_agrees : forall ts, Forall (fun o : toperand => is_cat (fst o)) ts ->
-  tuple_cat_t_m ts = tuple_cat_t_spec ts.
-Proof.
-  intros ts H. destruct ts as [|[c l] tl]; [reflexivity|].
-  inversion H as [|? ? Hc Htl]; subst. cbn [fst] in Hc.
-  unfold tuple_cat_t_m, tuple_cat_t_spec. fold spec_part.
-  destruct (refs_spec_total c l Hc) as [r [Hr [Hf [_ Hm]]]].
-  (* the first operand is read once more than the others would need: fold it into the generalised lemma *)
-  destruct tl as [|h tl'].
-  - cbn [tuple_cat_go_t map concat]. rewrite app_nil_r.
-    rewrite (refs_of_eq (c, l) Hc), Hr. cbn [obind]. change (map (fun e : telem => do g <- get_spec (fst (c, l)) (fst e); Some (snd e, moved_from g)) (snd (c, l))) with (spec_part (c, l)).
-    unfold spec_part. cbn [fst snd]. rewrite <- Hm. rewrite map_opt_map_some. f_equal.
-    apply map_ext_in. intros e He. rewrite Forall_forall in Hf. rewrite (moved_from_eq _ (Hf e He)). reflexivity.
-  - inversion Htl as [|? ? Hh Htl']; subst. destruct h as [c2 l2]. cbn [fst] in Hh.
-    destruct (refs_spec_total c2 l2 Hh) as [r2 [Hr2 [Hf2 [_ Hm2]]]].
-    cbn [tuple_cat_go_t]. unfold concat2_t.
-    rewrite (refs_of_eq (c, l) Hc), Hr. cbn [obind]. rewrite (refs_of_eq (c2, l2) Hh), Hr2. cbn [obind].
-    assert (Hr' : Forall (fun e : telem => is_cat (fst e)) (r ++ r2)) by (apply Forall_app; split; assumption).
-    assert (Hacc : map_opt (fun x => x) (map (fun e : telem => Some (snd e, moved_from (fst e))) (r ++ r2))
-                   = Some (map (fun e : telem => (snd e, moved_from (fst e))) (r ++ r2))).
-    { apply map_opt_map_some. }
-    destruct (tuple_cat_go_t_spec tl' (r ++ r2) _ Htl' Hr' Hacc) as [rest [Hrest Hgo]].
-    rewrite Hgo. symmetry.
-    change (map (fun o : toperand => map (fun e : telem => do g <- get_spec (fst o) (fst e); Some (snd e, moved_from g)) (snd o)))
-      with (map spec_part).
-    cbn [map concat]. rewrite app_assoc. apply map_opt_app; [|exact Hrest].
-    rewrite map_app. unfold spec_part. cbn [fst snd]. rewrite <- Hm, <- Hm2.
-    rewrite <- map_app. rewrite map_opt_map_some. rewrite map_app. reflexivity.
-Qed.
-
-(** known finding KF-C20-tuple_cat-ctad: class template argument deduction loses the declared element types *)
-Lemma cat_result_kind_refuted : exists k, cat_result_kind_m k <> cat_result_kind_spec k.
-Proof. exists (mkty false RL). discriminate. Qed.
-(* outside the defect region (elements declared as plain objects) the result type is right *)
-Lemma cat_result_kind_plain : forall k, k = mkty false RNone -> cat_result_kind_m k = cat_result_kind_spec k.
-Proof. intros k ->. reflexivity. Qed.
-Lemma cat_single_nested_refuted : exists n, cat_single_nested_arity_m n <> cat_single_nested_arity_spec n.
-Proof. exists 2%nat. discriminate. Qed.
 
 (** construction / assignment matrix: the header's requires-clauses are the standard's constraints, for all 7 x 7
     element type combinations (pair) and for tuples of any arity *)
